@@ -108,6 +108,39 @@ func c03B3(c *mc.Ctx) {
 	}
 }
 
+// composite keys of up to 3 columns in every order (the key cells are picked and hashed in key order)
+func c03Composite(c *mc.Ctx) {
+	needRewrite("blocksize:sorter")
+	pks := orderedPKs[3]
+	pk := pks[c.Choose(len(pks))]
+	nrows := c.Choose(6)
+	extra := c.Choose(2) // a 4th, non-key column
+	k := &ingestCfg{cols: []string{"a", "b", "c"}}
+	if extra == 1 {
+		k.cols = []string{"a", "b", "c", "d"}
+	}
+	k.pk = pk
+	for i := 0; i < nrows; i++ {
+		// distinct in every column, and ordered differently per column
+		row := []string{fmt.Sprintf("a%d", i), fmt.Sprintf("b%d", (i*3)%7), fmt.Sprintf("c%d", 9-i)}
+		if extra == 1 {
+			row = append(row, "d")
+		}
+		k.rows = append(k.rows, row)
+	}
+	chooseConfig(c, k)
+	c.Shard()
+	sum, db := runIngestCase(c, k, 3, "")
+	if sum != nil {
+		doctorClean(c, db, sum, k.describe())
+		c.Nontrivial(k.describe())
+	}
+	c.Outcome(fmt.Sprintf("pk%d-rows%d", len(pk), nrows))
+	if c.WantSample() && len(pk) == 3 && nrows > 3 {
+		c.Sample(k.describe() + " (block size scaled to 3)")
+	}
+}
+
 func c03Real(c *mc.Ctx) {
 	n := mc.Pick(c, []int{0, 1, 2, 254, 255, 256, 509, 510, 511, 765})
 	k := &ingestCfg{cols: []string{"k", "v"}, pk: [][]int{{0}, {}, {1, 0}}[c.Choose(3)]}
@@ -267,12 +300,13 @@ func init() {
 		ID:    "C03",
 		Level: "exploration",
 		Rule: "producer ingest, scaled block size 3 (build-time overlay of the literal 255): every key subset of a 10-key universe (1024 tables of 0..10 rows = 0..4 blocks, incl. the all-empty first row), crossed with up to d deviations over {keyless, descending file order, a duplicate key, run size, workers 1..3, delimiter}; " +
-			"producer ingest, real block size: 0,1,2,254,255,256,509,510,511,765 rows x key {[0], none, [1,0]} x all-empty first row x run size x workers; producer doctor: every table of 1..7 rows with each row stored twice is diagnosed and resolved. " +
+			"producer ingest, composite keys: 3..4-column tables of 0..5 rows under every ordered key subset of 3 columns (all 6 orders of a 3-column key); producer ingest, real block size: 0,1,2,254,255,256,509,510,511,765 rows x key {[0], none, [1,0]} x all-empty first row x run size x workers; producer doctor: every table of 1..7 rows with each row stored twice is diagnosed and resolved. " +
 			"Every produced table is checked by an independent structural oracle (row count, full blocks, strictly increasing keys, block stored under hash of content, block-index entries = hash(key)||hash(row) recomputed by an independent encoder, sorted-offset permutation, lookup of every key, table index = first keys, profile) " +
 			"and by the repository's doctor.Diagnose (must report nothing). Merge-result and wire-receipt producers run the same oracle inside C05 and C07. non-trivial = a table was produced; distinct by case description",
 		Assumptions: []string{"the scaled configuration changes only the literal block size in sorter.go, block.go, table.go (self-checked: blocks of exactly 3 rows are demanded by the oracle)", "tables beyond 4 blocks are not enumerated"},
 		Harnesses: []*mc.Harness{
 			{Name: "b3-ingest", Variant: "b3", Body: c03B3, DevBound: map[string]int{"quick": 2, "thorough": 4}, Budget: map[string]time.Duration{"quick": 60 * time.Second, "thorough": 12 * time.Minute}},
+			{Name: "b3-composite-keys", Variant: "b3", Body: c03Composite, DevBound: map[string]int{"quick": 1, "thorough": 3}, Budget: map[string]time.Duration{"quick": 40 * time.Second, "thorough": 5 * time.Minute}},
 			{Name: "real-sizes", Body: c03Real, Budget: map[string]time.Duration{"quick": 50 * time.Second, "thorough": 5 * time.Minute}},
 			{Name: "b3-doctor-resolve", Variant: "b3", Body: c03Doctor, Budget: map[string]time.Duration{"quick": 30 * time.Second, "thorough": 5 * time.Minute}},
 		},
